@@ -237,7 +237,7 @@ fn stream_cfg(k: usize) -> (&'static str, GenCfg, QCfg) {
         0 | 1 => ("plain", GenCfg { null_pct: if k % 2 == 0 { 25 } else { 8 }, max_rows: 10, ..GenCfg::default() }, QCfg::plain()),
         2 | 3 => ("full", GenCfg { max_rows: 10, null_pct: 30, ..GenCfg::default() }, QCfg::full()),
         4 => ("nullrich", GenCfg { max_rows: 6, null_pct: 60, ..GenCfg::default() }, QCfg::full()),
-        _ => ("wide", GenCfg { wide_values: true, max_rows: 8, ..GenCfg::default() }, QCfg::full()),
+        _ => ("wide", GenCfg { wide_values: true, max_rows: 8, ..GenCfg::default() }, QCfg { mix_num: false, ..QCfg::full() }),
     }
 }
 
